@@ -44,6 +44,17 @@ def gen_scenario(rng, i, family=None):
         sc["ops"].append({"op": "run", "model": 0, "X": scengen.rows(rng, 2, d)})
     if rng.random() < 0.4:
         sc["ops"].append({"op": "run", "model": 0, "X": scengen.rows(rng, rng.randint(2, 3), d), "reset": True})
+    # single-step calls that start from a reset / a given sender state: the receiver must see THAT state (zero / the given one)
+    odim = {nd["id"]: nd["odim"] for nd in sk["nodes"]}
+    in_model = sk["models"][0]["nodes"]
+    if rng.random() < 0.6:
+        sc["ops"].append({"op": "call", "model": 0, "x": scengen.rows(rng, 1, d)[0], "reset": True, "stateful": rng.random() < 0.5})
+        sc["ops"].append({"op": "run", "model": 0, "X": scengen.rows(rng, 2, d)})
+    if rng.random() < 0.6:
+        ids = [j for j in in_model if rng.random() < 0.7] or [in_model[0]]
+        sc["ops"].append({"op": "call", "model": 0, "x": scengen.rows(rng, 1, d)[0], "stateful": rng.random() < 0.5,
+                          "from_state": {str(j): scengen.rows(rng, 1, odim[j])[0] for j in ids}})
+        sc["ops"].append({"op": "run", "model": 0, "X": scengen.rows(rng, 2, d), "from_state": {str(j): scengen.rows(rng, 1, odim[j])[0] for j in ids[:1]}})
     return sc
 
 
@@ -139,6 +150,21 @@ def _judge(sc):
                 if not np.allclose(fb_seen, exp, atol=1e-9):
                     return _viol("forced:wrong-value:shift=%s" % shift, "%s: forced feedback at step %d: receiver saw %s, expected %s"
                                  % (sc["family"], t, fb_seen.tolist(), exp.tolist()), sc, exp.tolist(), fb_seen.tolist())
+        # a call / run that starts from a reset or from a given sender state sees exactly that state at its first step
+        if not outside and sc["send"] is not None or sc["family"] in ("sub-up", "sub-down"):
+            x1 = scen.fl(scengen.rows(rng, 1, d))
+            r = model.call(x1, reset=True, return_states="all")
+            fb_seen = (np.asarray(r[recv.name]).ravel() - recv_input({k: np.atleast_2d(v) for k, v in r.items()}, x1, 0)) / 100.0
+            if not np.allclose(fb_seen, 0, atol=1e-9):
+                return _viol("call:reset-not-seen-by-feedback", "%s: call(reset=True): the receiver saw %s instead of the zero state" % (sc["family"], fb_seen.tolist()),
+                             sc, [0.0] * len(fb_seen), fb_seen.tolist())
+            sv = scen.fl(scengen.rows(rng, 1, sender_dim_sc(sc)))
+            r = model.call(x1, from_state={sender.name: sv}, return_states="all")
+            fb_seen = (np.asarray(r[recv.name]).ravel() - recv_input({k: np.atleast_2d(v) for k, v in r.items()}, x1, 0)) / 100.0
+            if not np.allclose(fb_seen, sv.ravel(), atol=1e-9):
+                return _viol("call:from_state-not-seen-by-feedback", "%s: call(from_state={sender: s}): the receiver saw %s instead of s = %s"
+                             % (sc["family"], fb_seen.tolist(), sv.ravel().tolist()), sc, sv.ravel().tolist(), fb_seen.tolist())
+            r = model.run(scen.fl(scengen.rows(rng, 2, d)), from_state={sender.name: sv}, return_states="all")
         # after a forced run the unforced semantics is back: first step sees the sender's last real output
         X = scen.fl(scengen.rows(rng, 2, d))
         last = np.asarray(sender.state()).ravel()
@@ -201,6 +227,20 @@ def _judge_training(rng, tag):
                 out.append(_viol("train:force_teachers=%s" % force, "online train: step %d receiver saw %s, expected %s" % (t, seen[-T + t], e),
                                  {"tag": tag, "kind": "train", "force": force}, np.asarray(e).tolist(), seen[-T + t].tolist()))
                 return out
+    # unforced online training with the sender UPSTREAM of the receiver: one-step delay from the very first step of every train call
+    A = Node(forward=lambda n, x: 2 * x + 1, initializer=init, name=pre + "_A")
+    R3 = Node(forward=fwd, initializer=init, name=pre + "_R3"); o3 = RLS(name=pre + "_o3")
+    m3 = A >> R3 >> o3; R3 <<= A
+    prevA = np.zeros(1)
+    for rep in range(2):
+        seen.clear(); m3.train(X, Y, force_teachers=False)
+        for t in range(T):
+            e = prevA if t == 0 else 2 * X[t - 1] + 1
+            if not np.allclose(seen[-T + t], e, atol=1e-9):
+                out.append(_viol("train:upstream-sender:wrong-delay", "online train call %d step %d: receiver saw %s, expected the sender's previous output %s"
+                                 % (rep, t, seen[-T + t], e), {"tag": tag, "kind": "train", "force": False}, np.asarray(e).tolist(), seen[-T + t].tolist()))
+                return out
+        prevA = 2 * X[T - 1] + 1
     return out
 
 
